@@ -1,5 +1,6 @@
 """C05 (generated multi-source machines): RoProps/C05gen proves every machine regenerated from the Go source of
-TakeUntil, SkipUntil (operator_filter.go), SampleWhen, ThrottleWhen (operator_transformations.go) — go/extract/multigen.go
+TakeUntil, SkipUntil (operator_filter.go), SampleWhen, ThrottleWhen (operator_transformations.go), MergeAll (operator_combining.go;
+Merge / MergeWith* / MergeMap* are MergeAll over a synchronous or projected outer observable) — go/extract/multigen.go
 -> lean/RoGen/MultiGen.lean — to REFINE the hand-written machine of RoModel/Multi/OpsA.lean that the C05 theorems are
 about (MMachine.Sim; RoProofs/MultiSim.lean: indistinguishable runs for every source configuration, subscription
 context, interleaving and cut). When `lake build RoProps.C05gen` fails, `search` names the operator whose regenerated
@@ -12,6 +13,8 @@ from props import *
 LEAN_MODULES = ['C05gen']
 GEN = os.path.join(R.LEAN, 'RoGen', 'MultiGen.lean')
 SNAP = os.path.join(R.LEAN, 'RoGen', 'MultiGen.snapshot')
+# the harness operators (kind=multi) that run a translated Go body
+HARNESS_OPS = {'MergeAll': ['MergeAll', 'Merge', 'MergeWith', 'MergeWithN', 'MergeMap']}
 
 
 def parse_gen(text):
@@ -56,7 +59,9 @@ def search(ctx, out):
         head = (f'# the machine regenerated from the Go source of `{op}` no longer refines the hand-written machine the C05 theorems are about\n'
                 f'# (lake build RoProps.C05gen fails: {", ".join(errs) or "see evidence notes"})\n# {op} — {why}\n' + '\n'.join('#   ' + l for l in diff) + '\n')
         before = len(ctx.violations)
-        rows = R.run_kind(ctx, 'multi', extra=['-only', op], tier='thorough')
+        rows = []
+        for hop in HARNESS_OPS.get(op, [op]):
+            rows += R.run_kind(ctx, 'multi', extra=['-only', hop], tier='thorough')
         if rows:
             R.compare(ctx, rows, C05.proj_multi, f'C05 {op}, every interleaving (regenerated machine changed; thorough generator)',
                       oracle=C05.oracle_release, nontrivial=lambda c, gd: True)
@@ -77,6 +82,6 @@ def parts(ctx):
         ctx.violation('C05gen: lean/RoGen/MultiGen.lean or its snapshot is missing', 'missing ' + GEN + ' or ' + SNAP + '\n', no_input=True)
     elif ch and not getattr(ctx, 'lake_failed', None):
         ctx.notes.append('MultiGen.lean differs from its snapshot for ' + ', '.join(o for o, _, _ in ch) + ' but all refinements still hold (run tools/opgen_snapshot.py)')
-    return dict(rule_part='4 multi-source machines (TakeUntil, SkipUntil, SampleWhen, ThrottleWhen) regenerated from the Go source and proved to refine the hand-written machines (MMachine.Sim: all configurations, interleavings, cuts)',
+    return dict(rule_part='5 multi-source machines (TakeUntil, SkipUntil, SampleWhen, ThrottleWhen, MergeAll) regenerated from the Go source and proved to refine the hand-written machines (MMachine.Sim: all configurations, interleavings, cuts)',
                 search=search,
                 assumptions=['the translator go/extract/multigen.go is faithful on the fragment it accepts (its header; mutex operations dropped, atomics sequential, deferred destination calls made last); its output is checked against the hand-written machines by the kernel'])
